@@ -20,7 +20,7 @@
    None of the last five calls sanitizeLabels. *)
 From Coq Require Import List ZArith String Ascii Bool Permutation.
 From Qryn Require Import model.GoQuote model.LabelJson model.Fingerprint model.Labels model.GoJson model.DdTags.
-From Qryn Require model.GoFloat.
+From Qryn Require Export model.AnyValue.
 Import ListNotations.
 Open Scope Z_scope.
 
@@ -40,14 +40,6 @@ Definition dd_cf_labels (f : dd_cf) : list label :=
     [("ddsource", cf_ddsource f); ("ScriptName", cf_script f); ("Outcome", cf_outcome f); ("EventType", cf_event f);
      ("ActionResult", cf_action_result f); ("ActionType", cf_action_type f); ("ActorType", cf_actor_type f);
      ("ResourceType", cf_resource_type f)]%string.
-
-(* decimal digits of a small natural number (fmt.Sprintf("%d", i+1)) *)
-Fixpoint dec_digits (fuel : nat) (n : Z) (acc : string) : string :=
-  match fuel with
-  | O => acc
-  | S f => let acc' := String (chr (48 + n mod 10)) acc in if n <? 10 then acc' else dec_digits f (n / 10) acc'
-  end.
-Definition dec (n : Z) : string := dec_digits 20 n EmptyString.
 
 (* members of the series object that produce labels, in document order *)
 Inductive dd_item :=
@@ -74,58 +66,7 @@ Definition es_bulk_labels (target : string) (members : list label) : list label 
   [("type", "elastic")]%string ++ (if String.eqb target "" then [] else [("_index"%string, target)]) ++
   filter (es_bulk_keep target) members.
 
-(* ------------------------------------------------------------------ OTLP logs *)
-(* SanitizeKey: every rune outside [a-zA-Z0-9_] becomes '_'; "_" is put in front of an empty result or a digit *)
-Fixpoint otlp_key_body (skip : nat) (s : string) : string :=
-  match s with
-  | EmptyString => EmptyString
-  | String c r =>
-    match skip with
-    | S k => otlp_key_body k r
-    | O =>
-      let b := byte c in
-      if b <? 128 then String (if is_alnum_us b then c else us) (otlp_key_body 0 r)
-      else match decode_rune s with
-           | Some (_, w) => String us (otlp_key_body (Nat.pred w) r)
-           | None => String us (otlp_key_body 0 r)
-           end
-    end
-  end.
-Definition otlp_key (s : string) : string :=
-  let t := otlp_key_body 0 s in
-  match t with
-  | EmptyString => str1 us
-  | String c _ => if in_rng 48 57 (byte c) then String us t else t
-  end.
-
-(* a Go map[string]string as the list of its entries, keys distinct, in insertion order *)
-Fixpoint mset (k v : string) (m : list label) : list label :=
-  match m with
-  | [] => [(k, v)]
-  | (k', v') :: r => if String.eqb k k' then (k, v) :: r else (k', v') :: mset k v r
-  end.
-(* SanitizeValue over an any-value tree: string as it is; bool true/false; int %d; double
-   strconv.FormatFloat(v, 'f', -1, 64) (model/GoFloat.v shortest_text, the transcription property C15 ties to strconv);
-   bytes base64 (standard alphabet, padded); array: json.Marshal of the []string of the items' values; kvlist: json.Marshal
-   of the map[string]string filled in order with SanitizeKey(key) -> value (later wins; encoding/json sorts the keys);
-   an AnyValue without a value: "". *)
-Inductive oval :=
-| OStr (s : string) | OBool (b : bool) | OInt (z : Z)
-| ODouble (bits : N) | OBytes (s : string) | OArr (items : list oval) | OKv (entries : list (string * oval)) | ONone.
-Definition dec_z (z : Z) : string := if z <? 0 then String "-" (dec (- z)) else dec z.
-Definition mfill (l : list label) : list label := fold_left (fun m kv => mset (fst kv) (snd kv) m) l [].
-Fixpoint otlp_value (v : oval) : string :=
-  match v with
-  | OStr s => s
-  | OBool true => "true"
-  | OBool false => "false"
-  | OInt z => dec_z z
-  | ODouble b => GoFloat.shortest_text (GoFloat.fl_of_bits b)
-  | OBytes s => base64 s
-  | OArr items => gj_array (map otlp_value items)
-  | OKv entries => gj_map (mfill (map (fun kv => match kv with (k, x) => (otlp_key k, otlp_value x) end) entries))
-  | ONone => EmptyString
-  end.
+(* ------------------------------------------------------------------ OTLP logs (SanitizeKey, SanitizeValue, the Go map: model/AnyValue.v) *)
 Definition otlp_fill (attrs : list (string * oval)) (m : list label) : list label :=
   fold_left (fun m kv => mset (otlp_key (fst kv)) (otlp_value (snd kv)) m) attrs m.
 (* severity "" = none *)
